@@ -8,7 +8,8 @@ From AS Require Import Base.
 From AS.Model Require Import Table Ops.
 From AS Require Import Effects.
 From AS.Spec Require Import Terminal.
-From AS.Proofs Require Import TableProofs SliceProofs PadProofs ApplyProofs SgrAlgebra ApplyDisplay GenFns.
+From AS.Model Require Import Sgr Tokenizer Render Scrub Parse StrOps FormatSpec Exec.
+From AS.Proofs Require Import TableProofs SliceProofs PadProofs ApplyProofs SgrAlgebra ApplyDisplay GenFns ExecProofs InvariantProofs ReachableCorollaries.
 
 (* the text never changes *)
 Theorem C06_text : forall s new st en top, base (apply_fmt s new st en top) = base s.
@@ -137,3 +138,33 @@ Theorem C06_bounds_are_code : forall (len : nat) (v : option Z) (d : nat),
   Z.of_nat (slice_idx len v d) = AS.Gen.Fns.gen_slice_val_to_idx (Z.of_nat len) v (Z.of_nat d).
 Proof. exact slice_idx_is_code. Qed.
 Print Assumptions C06_bounds_are_code.
+
+(* FOR EVERY REACHABLE VALUE: with the new setting objects allocated as the library does (fresh
+   identities, here `fresh texts (next_id p)`), characters outside the range keep their settings and
+   characters inside gain exactly the new ones, below (topmost=False) or as one block (topmost=True) *)
+Theorem C06_reachable : forall p o texts st en top, reachable_ok p -> In o (objs p) -> texts <> [] ->
+  let s := o_val o in
+  let new := fst (fresh texts (next_id p)) in
+  let len := length (base s) in
+  let i := slice_idx len st 0 in let j := slice_idx len en len in
+  let r := apply_fmt s new st en top in
+  map stxt new = texts /\ base r = base s /\ WFv r
+  /\ (forall k, k < i \/ j <= k -> active_at (tbl r) k = active_at (tbl s) k)
+  /\ (range_empty len i j = false -> top = false -> forall k, i <= k < j ->
+        active_at (tbl r) k = new ++ active_at (tbl s) k)
+  /\ (range_empty len i j = false -> top = true -> forall k, i <= k < j ->
+        exists l1 l2, active_at (tbl s) k = l1 ++ l2 /\ active_at (tbl r) k = l1 ++ new ++ l2 /\ (k = i -> l2 = [])).
+Proof.
+  intros p o texts st en top Hr Hin Hne s new len i j r.
+  destruct (reachable_value p o Hr Hin) as (W & _ & _ & _ & S & _ & _ & N & _ & _ & B).
+  assert (Hfr : fresh_for new (tbl s)) by (apply fresh_fresh_for; exact B).
+  assert (Hnew : new <> []) by (unfold new; intros H; apply fresh_is_nil in H; congruence).
+  split; [apply fresh_txts|].
+  split; [apply C06_text|]. split; [now apply apply_fmt_WFv|].
+  split; [apply apply_fmt_outside; assumption|].
+  split.
+  - intros Hre Ht k Hk. apply apply_fmt_inside_bottom; assumption.
+  - intros Hre Ht k Hk. destruct (apply_fmt_inside_top s new st en top S Hfr Hnew Hre Ht k Hk) as (l1 & l2 & A1 & A2 & _ & A4 & _).
+    exists l1, l2. auto.
+Qed.
+Print Assumptions C06_reachable.
